@@ -31,7 +31,8 @@ def check(run: Run, prog: Program, model: Model, tier: str) -> None:
         "handlers; an operation that may raise and is neither guarded nor caught is a violation. Explicit raises "
         "inside a visit method are violations. Formatter methods are evaluated on an error object whose "
         "actual_value has each kind the validator builds that error class with. validate_or_fail is checked for "
-        "its shape. Objects whose own special methods raise are out of scope, as in the property.")
+        "its shape. Objects whose own special methods raise are out of scope, as in the property."
+        " Hashing (set/dict membership and stores) of a value not known to be hashable, int()/float() of a value of unknown kind and str.format on a template that embeds a runtime value are partial operations.")
     run.rule_text = ("obligations: (visitor method, prop-set/shape) for TOTAL; (formatter method, value kind) for FORMAT-TOTAL; "
                      "clauses of validate_or_fail; non-trivial = at least one partial operation was judged on the paths")
     run.trusted += ["partial-operation table of DESIGN appendix A", "comparison / len / in / iteration are total on built-in kinds "
